@@ -94,7 +94,7 @@ def run_tlc(module: str, cfg: str | None = None, *, workers: int | str = "auto",
     scratch = new_scratch("tlc")
     try:
         gc = ["-XX:+UseSerialGC", "-XX:TieredStopAtLevel=1"] if str(workers) == "1" else ["-XX:+UseParallelGC"]
-        cmd = ["java"] + gc + ["-Xmx" + max_heap] + (java_opts or []) + [
+        cmd = ["java", "-Dfile.encoding=UTF-8", "-Dstdout.encoding=UTF-8", "-Dstderr.encoding=UTF-8"] + gc + ["-Xmx" + max_heap] + (java_opts or []) + [
             "-cp", JAR, "tlc2.TLC", "-workers", str(workers), "-metadir", str(scratch / "meta"),
             "-noGenerateSpecTE", "-config", str(cfg)]
         if not deadlock:
@@ -104,10 +104,13 @@ def run_tlc(module: str, cfg: str | None = None, *, workers: int | str = "auto",
         cmd += (extra or [])
         cmd.append(module + ".tla")
         e = dict(os.environ)
+        e["LC_ALL"] = "C.UTF-8"
+        e["JAVA_TOOL_OPTIONS"] = (e.get("JAVA_TOOL_OPTIONS", "") + " -Dfile.encoding=UTF-8").strip()
         e.update(env or {})
         t0 = time.time()
         try:
-            p = subprocess.run(cmd, cwd=specdir, env=e, capture_output=True, text=True, timeout=timeout)
+            p = subprocess.run(cmd, cwd=specdir, env=e, capture_output=True, text=True, encoding="utf-8", errors="replace",
+                               timeout=timeout)
         except subprocess.TimeoutExpired as ex:
             subprocess.run(["pkill", "-f", str(scratch)], capture_output=True)
             raise TlcFailure(f"TLC timed out after {timeout}s: {' '.join(cmd)}") from ex
